@@ -646,7 +646,7 @@ Lemma step_facts s e : Inv s -> ev_ok e -> is_resolve e = false ->
 Proof.
   intros I Hok Hnr. destruct consts_ok as [Csc Cf Cr _].
   unfold step. rewrite (wi_h s (i_w s I)).
-  destruct e as [name| | |err|b|r|r|dt|]; cbn [is_resolve is_net elapsed] in *; try discriminate.
+  destruct e as [name| | |err|b|r|r|r|dt|]; cbn [is_resolve is_net elapsed] in *; try discriminate.
   - (* ConnectCb *)
     destruct (reg s) eqn:Hreg.
     2:{ sim. split; [apply Tr_refl; [exact I|lia]|]. split; [lia|]. left; intros H; auto. }
@@ -700,6 +700,8 @@ Proof.
     + reflexivity.
     + lia.
     + intros Hc. split; [exact Hc|]. unfold mu, deadline; sim. split; lia.
+  - (* DiscRes *)
+    sim. split; [apply Tr_refl; [exact I|lia]|]. split; [lia|]. left; intros H; auto.
   - (* Adv *)
     assert (Hmu : mu s < Z.of_nat ADV_FUEL).
     { unfold mu. pose proof (wi_tc s (i_w s I)). pose proof (b2z_range (armed (tT s))). lia. }
